@@ -5,7 +5,7 @@ import GoMailModel.Proofs.Legal4
 namespace GoMail.Smtp
 open GoMail
 
-theorem endData_facts (c : Conn) (h : Sess c) (hp : live c → (judge c.trace).tx = .data) :
+theorem endData_facts (c : Conn) (h : Sess c) (hp : live c → (judge c.trace).tx = .full) :
     Sess c.endData.1 ∧ Idle c.endData.1 := by
   unfold Conn.endData
   cases ho : c.cliOpen with
@@ -195,15 +195,13 @@ theorem sendOne_between (cfg : SendCfg) (c : Conn) (idx : Nat) (m : MsgIn) (wd :
             | none =>
               simp only []
               split
-              · obtain ⟨a, _, _⟩ := sess_ev_neutral c5 (.content idx false) s7 (step_content _ _)
+              · obtain ⟨a, _, _⟩ := sess_ev_neutral c5 (.content idx false) s7 (step_content_partial _)
                 exact ⟨(close_facts _ a).1, (close_facts _ a).2.1⟩
               · split
-                · obtain ⟨a, _, _⟩ := sess_ev_neutral c5 (.content idx false) s7 (step_content _ _)
+                · obtain ⟨a, _, _⟩ := sess_ev_neutral c5 (.content idx false) s7 (step_content_partial _)
                   obtain ⟨a2, _, _⟩ := sess_ev_neutral _ (.stall c5.armed) a (fun j => step_stall j _)
                   exact ⟨(close_facts _ a2).1, (close_facts _ a2).2.1⟩
-                · obtain ⟨a, _, hj⟩ := sess_ev_neutral c5 (.content idx true) s7 (step_content _ _)
-                  have pe : live (c5.ev (.content idx true)) → (judge (c5.ev (.content idx true)).trace).tx = .data := by
-                    intro hl5; rw [hj]; exact d7 rfl hl5
+                · obtain ⟨a, pe⟩ := sess_content_full c5 idx s7 (d7 rfl)
                   obtain ⟨s8, i8⟩ := endData_facts _ a pe
                   rcases he : (c5.ev (.content idx true)).endData with ⟨c6, e6⟩
                   rw [he] at s8 i8
